@@ -406,6 +406,10 @@ struct conf_node_inaddr *conf_register_inaddr(struct conf_node_object *parent, c
     cnode = conf_register_node(parent, name, CONF_INADDR, sizeof(*cnode));
     cnode->def_hostname = hostname;
     cnode->def_service = service;
+    if (!cnode->hostname)
+        cnode->hostname = xstrdup(hostname);
+    if (!cnode->service)
+        cnode->service = xstrdup(service);
     cnode->state = CA_UNKNOWN;
     return cnode;
 }
